@@ -49,6 +49,14 @@ def gen(ctx):
     for _ in range(n):
         k = r.range(1, 60)
         ps.append(b''.join(r.choice(ALPHABET) if r.chance(1, 3) else symgen.payload(r, r.choice(symgen.KINDS), r.range(1, 6)) for _ in range(r.range(1, 8)))[:k * 3])
+    # ill-formed UTF-8 that a hand-rolled decoder could take for a character: over-long forms (of ASCII, of two-byte kanji-mode
+    # characters such as alpha / degree / Cyrillic, of three-byte characters), surrogates, code points above U+10FFFF, five-byte
+    # forms, lone continuation bytes - alone, repeated and between real kanji / digits
+    ill = [b'\xc0\x80', b'\xc1\xbf', b'\xe0\x80\x80', b'\xe0\x8e\xb1', b'\xe0\x82\xb0', b'\xe0\x90\x96', b'\xe0\x9f\xbf', b'\xf0\x80\x8e\xb1',
+           b'\xf0\x8f\xbf\xbf', b'\xed\xa0\x80', b'\xed\xbf\xbf', b'\xf4\x90\x80\x80', b'\xf8\x88\x80\x80\x80', b'\x80', b'\xbf\xbf', b'\xe7\x82']
+    kj = '点'.encode()
+    for x in ill:
+        ps += [x, x + x, x * 3, kj + x + kj, x + kj + kj, kj + kj + x, b'7' + x, x + b'7', x + 'α'.encode() + x, kj + x * 2 + kj + b'12']
     for kind in symgen.KINDS:
         for ln in (100, 1000, 3000, 7089, 7090, 4296, 4297, 2953, 2954, 1817, 1818):
             if ctx.tier == 'quick' and ln > 3000 and kind != 'num':
